@@ -243,7 +243,7 @@ Proof.
   unfold goto_impl in H. destruct (has_label t (p_label p)); [|discriminate].
   destruct (iwrite_spec _ _ _ _ H) as (Gc & Go & Gd & Gne & Gk & _).
   assert (Hnpre : forall y, reserved y -> forall e, ~ In (y, e) (p_pre p)).
-  { intros y Hy e Hin. apply (Hres y); auto. eapply Hpre; eauto. }
+  { intros y Hy e Hin. apply (Hres y); auto. destruct (Hpre y e Hin); auto. }
   assert (Hnvars : forall y, reserved y -> ~ In y (p_vars p)).
   { intros y Hy Hin. apply (Hres y); auto. }
   assert (Hframe : frame = frame_of (VS ret) (p_vars p) (v_vars g)).
@@ -256,7 +256,7 @@ Proof.
     as (g4 & Hg4 & Hag); auto.
   { intros y Hy. rewrite Wc, vset_other by (intros ->; apply Hy, reserved_stack).
     rewrite Hc2. apply bind_args_local. rewrite Hc1. apply Rv; auto. }
-  { intros x e Hin y Hy. apply Hres. eapply Hpre; eauto. }
+  { intros x e Hin y Hy. destruct (Hpre x e Hin) as [_ Hsr]. apply Hres, Hsr, Hy. }
   rewrite Hg4. eexists. split; [reflexivity|].
   split; [|split; [|split; [|split; [|split]]]]; cbn [v_vars v_stack v_pc].
   - intros x Hx.
@@ -497,9 +497,10 @@ Section Isolation.
     intros g q r a g1 H. unfold call_spec in H.
     destruct (find_proc (t_procs t) q) as [pr|] eqn:E; [|discriminate].
     destruct (Nat.ltb _ _); [discriminate|]. destruct (has_label t (p_label pr)); [|discriminate].
+    destruct (set_all (bind_args (v_vars g) (p_vars pr) a) (p_pre pr)) as [f'|] eqn:Es; [|discriminate].
     inversion H; subst; clear H. exists pr. split; auto. split; [reflexivity|].
     intros y Hy. cbn. destruct (Hwf q pr E) as (_ & _ & Hpre).
-    rewrite set_all_other by (intros v Hin; apply Hy; eapply Hpre; eauto).
+    rewrite (set_all_other _ _ _ y Es) by (intros e Hin; apply Hy; destruct (Hpre y e Hin); auto).
     apply bind_args_other; auto.
   Qed.
 
@@ -638,11 +639,22 @@ Proof.
       eapply IH; [eapply keeps_iwrite; eauto|eauto].
 Qed.
 
+Lemma keeps_peval : forall b s e s1 v, keeps b s -> peval_impl s e = Some (s1, v) -> keeps b s1.
+Proof.
+  intros b s e s1 v K H. destruct e as [w|y|y k]; cbn in H.
+  - inversion H; subst; auto.
+  - eapply keeps_iread; eauto.
+  - destruct (iread s y) as [[s2 w]|] eqn:Er; [|discriminate].
+    destruct (padd w k); [|discriminate]. inversion H; subst. eapply keeps_iread; eauto.
+Qed.
+
 Lemma keeps_write_all : forall ws b s s', keeps b s -> write_all s ws = Some s' -> keeps b s'.
 Proof.
-  induction ws as [|[x v] r IH]; intros b s s' K H; cbn in H.
+  induction ws as [|[x e] r IH]; intros b s s' K H; cbn in H.
   - inversion H; subst; auto.
-  - destruct (iwrite s x v) as [s1|] eqn:Ew; [|discriminate]. eapply IH; [eapply keeps_iwrite; eauto|eauto].
+  - destruct (peval_impl s e) as [[s1 v]|] eqn:Ee; [|discriminate].
+    destruct (iwrite s1 x v) as [s2|] eqn:Ew; [|discriminate].
+    eapply IH; [eapply keeps_iwrite; [eapply keeps_peval; eauto|eauto]|eauto].
 Qed.
 
 Lemma keeps_restore_all : forall f b s s', keeps b s -> restore_all s f = Some s' -> keeps b s'.
@@ -734,7 +746,7 @@ Qed.
 (* ------------------------------------------------------------------ the non-vacuity example *)
 
 Definition ex_table : table :=
-  mkTable [("P", mkProc "P.l1" ["P.n"] []); ("Q", mkProc "Q.l1" ["Q.m"; "Q.z"] [("Q.z", VI 0)])]
+  mkTable [("P", mkProc "P.l1" ["P.n"] []); ("Q", mkProc "Q.l1" ["Q.m"; "Q.z"] [("Q.z", PAdd "Q.m" 10)])]
           ["A.l1"; "A.l2"; "P.l1"; "P.l2"; "Q.l1"].
 
 Definition ex_store : st := init_store "A.l1" [("A.x", VI 5)].
@@ -756,7 +768,7 @@ Proof.
     + intros x v [].
   - split; [repeat constructor; cbn; intuition discriminate|]. split.
     + intros x [<-|[<-|[]]] [E|E]; discriminate E.
-    + intros x v [E|[]]. inversion E; subst. cbn. auto.
+    + intros x v [E|[]]. inversion E; subst. cbn. split; [auto|]. intros y [<-|[]]. auto.
 Qed.
 
 Lemma ex_store_wf : wf_store ex_store.
@@ -778,7 +790,7 @@ Proof. apply init_store_quiescent. Qed.
 Lemma ex_trace_act : act ex_table (fun x => x = "A.x") "P" ex_trace.
 Proof.
   assert (Hq : forall x, x = "Q.z" -> var_of ex_table "Q" x).
-  { intros x ->. exists (mkProc "Q.l1" ["Q.m"; "Q.z"] [("Q.z", VI 0)]). split; [reflexivity|cbn; auto]. }
+  { intros x ->. exists (mkProc "Q.l1" ["Q.m"; "Q.z"] [("Q.z", PAdd "Q.m" 10)]). split; [reflexivity|cbn; auto]. }
   assert (Hnr : forall x, x = "Q.z" \/ x = "A.x" -> ~ reserved x).
   { intros x [->| ->] [E|E]; discriminate E. }
   unfold ex_trace. apply act_commit. apply act_call.
@@ -836,16 +848,39 @@ Proof.
       * intros y [<-|Hy]; auto; try (apply G, G3, G1, He).
 Qed.
 
-Lemma write_all_total : forall ws s, (forall x v, In (x, v) ws -> sres s x <> None) ->
+Lemma peval_impl_total : forall s e v,
+  peval (cur s) e = Some v -> (forall y, In y (psrc e) -> sres s y <> None) ->
+  exists s1, peval_impl s e = Some (s1, v) /\ grows s s1 /\ (forall y, cur s1 y = cur s y).
+Proof.
+  intros s e v H Hs. destruct e as [w|y|y k]; cbn in H |- *.
+  - inversion H; subst. exists s. split; auto. split; [apply grows_refl|auto].
+  - destruct (iread_total s y (Hs y (or_introl eq_refl))) as (s1 & w & Er). rewrite Er.
+    destruct (iread_spec _ _ _ _ Er) as (Hw & Hr & _). inversion H; subst.
+    exists s1. split; auto. split; [eapply iread_grows; eauto|intros z; unfold cur; now rewrite Hr].
+  - destruct (iread_total s y (Hs y (or_introl eq_refl))) as (s1 & w & Er). rewrite Er.
+    destruct (iread_spec _ _ _ _ Er) as (Hw & Hr & _). subst w. rewrite H.
+    exists s1. split; auto. split; [eapply iread_grows; eauto|intros z; unfold cur; now rewrite Hr].
+Qed.
+
+Lemma write_all_total : forall ws s f',
+  set_all (cur s) ws = Some f' ->
+  (forall x e, In (x, e) ws -> sres s x <> None /\ forall y, In y (psrc e) -> sres s y <> None) ->
   exists s', write_all s ws = Some s' /\ grows s s'.
 Proof.
-  induction ws as [|[x v] r IH]; intros s H; cbn.
+  induction ws as [|[x e] r IH]; intros s f' H Hex; cbn in H |- *.
   - exists s. split; auto. apply grows_refl.
-  - destruct (iwrite_total s x v (H x v (or_introl eq_refl))) as (s1 & Ew). rewrite Ew.
-    pose proof (iwrite_grows _ _ _ _ Ew) as G.
-    destruct (IH s1) as (s' & E & G').
-    { intros y w Hin. apply G. eapply H. right; eauto. }
-    exists s'. split; auto. eapply grows_trans; eauto.
+  - destruct (peval (cur s) e) as [v|] eqn:Ep; [|discriminate].
+    destruct (Hex x e (or_introl eq_refl)) as [Hx Hsrc].
+    destruct (peval_impl_total s e v Ep Hsrc) as (s1 & E1 & G1 & Hc1). rewrite E1.
+    destruct (iwrite_total s1 x v (G1 x Hx)) as (s2 & Ew). rewrite Ew.
+    pose proof (iwrite_grows _ _ _ _ Ew) as G2.
+    destruct (iwrite_spec _ _ _ _ Ew) as (Wc & _).
+    destruct (set_all_agree (fun _ => True) r (vset (cur s) x v) (cur s2) f') as (g' & Hg & _); auto.
+    { intros y _. rewrite Wc. unfold vset. destruct (String.eqb y x); auto. }
+    destruct (IH s2 g' Hg) as (s' & E & G').
+    { intros x0 e0 Hin. destruct (Hex x0 e0 (or_intror Hin)) as [H0 H1]. split; [apply G2, G1, H0|].
+      intros y Hy. apply G2, G1, H1, Hy. }
+    exists s'. split; auto. eapply grows_trans; [exact G1|]. eapply grows_trans; eauto.
 Qed.
 
 Lemma call_defined_lemma : forall t s g p ret args g',
@@ -860,13 +895,25 @@ Proof.
   destruct (iread_spec _ _ _ _ Er) as (Hsv & Hres1 & _).
   destruct (Nat.ltb (List.length (p_vars p)) (List.length args)); [discriminate|].
   destruct (has_label t (p_label p)) eqn:El; [|discriminate].
+  destruct (set_all (bind_args (v_vars g) (p_vars p) args) (p_pre p)) as [fg|] eqn:Esg; [|discriminate].
   destruct (save_bind_total (p_vars p) args s1 [(VS ".pc", VS ret)]) as (s2 & fr & Esb & G2 & Hx). rewrite Esb.
+  assert (Hfr0 : forall x, In x (p_vars p) -> lookup (VS x) [(VS ".pc", VS ret)] = None).
+  { intros x Hx0. cbn. rewrite eqb_neq_false; auto. intros ->. apply (Hres _ Hx0). apply reserved_pc. }
+  destruct (save_bind_spec _ _ _ _ _ _ Esb Hnd Hfr0) as (_ & Hc2 & _ & _).
   rewrite Hsv, Rs.
   assert (Hst2 : sres s2 ".stack" <> None) by (apply G2; rewrite Hres1; auto).
   destruct (iwrite_total s2 ".stack" (VT (VR fr :: map VR (v_stack g))) Hst2) as (s3 & Ew). rewrite Ew.
   pose proof (iwrite_grows _ _ _ _ Ew) as G3.
-  destruct (write_all_total (p_pre p) s3) as (s4 & Ea & G4).
-  { intros x v Hin. apply G3, Hx. eapply Hpre; eauto. }
+  destruct (iwrite_spec _ _ _ _ Ew) as (Wc & _).
+  assert (Hc1 : forall y, cur s1 y = cur s y) by (intros y; unfold cur; now rewrite Hres1).
+  destruct (set_all_agree (fun y => ~ reserved y) (p_pre p) (bind_args (v_vars g) (p_vars p) args) (cur s3) fg)
+    as (f3 & Hf3 & _); auto.
+  { intros y Hy. rewrite Wc, vset_other by (intros ->; apply Hy, reserved_stack).
+    rewrite Hc2. symmetry. apply bind_args_local. rewrite Hc1. apply Rv; auto. }
+  { intros x e Hin y Hy. destruct (Hpre x e Hin) as [_ Hsr]. apply Hres, Hsr, Hy. }
+  destruct (write_all_total (p_pre p) s3 f3 Hf3) as (s4 & Ea & G4).
+  { intros x e Hin. destruct (Hpre x e Hin) as [Hxv Hsr]. split; [apply G3, Hx, Hxv|].
+    intros y Hy. apply G3, Hx, Hsr, Hy. }
   rewrite Ea. unfold goto_impl. rewrite El.
   apply iwrite_total. apply G4, G3, G2. rewrite Hres1. auto.
 Qed.
@@ -917,10 +964,7 @@ Qed.
 
 Lemma write_all_grows : forall ws s s', write_all s ws = Some s' -> grows s s'.
 Proof.
-  induction ws as [|[x v] r IH]; intros s s' H; cbn in H.
-  - inversion H; subst. apply grows_refl.
-  - destruct (iwrite s x v) as [s1|] eqn:Ew; [|discriminate].
-    eapply grows_trans; [eapply iwrite_grows; eauto|eauto].
+  intros ws s s' H. destruct (write_all_spec _ _ _ H) as (_ & _ & _ & _ & Hk). exact Hk.
 Qed.
 
 Lemma restore_all_grows : forall f s s', restore_all s f = Some s' -> grows s s'.
@@ -971,6 +1015,7 @@ Proof.
   intros t s g p r a s' g' L Hi Hs. destruct (call_grows _ _ _ _ _ _ Hi) as [G Hx].
   unfold call_spec in Hs. destruct (find_proc (t_procs t) p) as [pr|] eqn:Ep; [|discriminate].
   destruct (Nat.ltb _ _); [discriminate|]. destruct (has_label t (p_label pr)); [|discriminate].
+  destruct (set_all _ (p_pre pr)) as [f'|]; [|discriminate].
   inversion Hs; subst; clear Hs. intros fr [<-|Hin] x v Hv Hn.
   - destruct Hv as [E|Hv]; [inversion E; subst; contradiction|].
     apply in_map_iff in Hv as (y & E & Hy). inversion E; subst. eapply Hx; eauto.
